@@ -115,6 +115,42 @@ def run(ctx, rep):
     from .c09 import compressed_read_rule
     rep.rule('C14.6', 'a short or misplaced read of a compressed cluster cannot make the slice of the bounce buffer panic (start <= end <= bytes read)')
     compressed_read_rule(f, rep, 'C14.6')
+    table_lookup_rule(f, rep, 'C14.7')
+
+
+def table_lookup_rule(f, rep, rid):
+    """The entry lookup of the pointer tables (L1 table, L2 table, refcount table) is total: for every index it returns
+    an entry, out-of-range indices read as the all-zero (unallocated) entry.  Indices handed to it are computed from image
+    content - a host offset stored in an L2 entry selects a refcount-table entry, a guest offset of a header with a huge size
+    selects an L1 entry - and nothing validates the tables against the file when it is opened, so a lookup that can panic
+    turns a malformed image into a panic of read_at / check().  Decided by engine F on each `get` body with an arbitrary
+    index: every panic site is discharged.  (RefBlock, whose `get` decodes packed counters of a slice the caller sized, is
+    not a pointer table and is not part of this rule.)"""
+    from ..absint import AbsInt
+    rep.rule(rid, 'Table::get of the L1 table, the L2 table and the refcount table cannot panic for any index (out of range reads as unallocated)')
+    n = 0
+    for im in f.impls:
+        if im.get('trait') != 'meta::table::Table':
+            continue
+        name = f.tstr(im['self']).split('::')[-1]
+        if name == 'RefBlock':
+            continue
+        for m in im['methods']:
+            if m['n'] != 'get' or f.body(m['p']) is None:
+                continue
+            n += 1
+            ai = AbsInt(f)
+            ai.analyze(m['p'])
+            bad = [o for o in ai.obl.values() if not o.ok]
+            rep.ob(rid, '%s::get' % name, not bad, '%d panic site(s) examined, all discharged for an arbitrary index' % len(ai.obl) if not bad
+                   else '%s at %s: %s' % (bad[0].kind, bad[0].where, (bad[0].detail or '')[:160]))
+            if bad:
+                rep.violation(rid, '%s:%s' % (rid, name), bad[0].where,
+                              '%s::get can panic for an index outside the table (%s): the index comes from image content (an L2 entry '
+                              'pointing beyond what the refcount table covers, a guest offset of an image whose header claims a huge '
+                              'size), so a malformed image makes read_at / check() panic instead of reading the entry as unallocated' % (
+                                  name, bad[0].kind.split('{')[0].strip()))
+    rep.floor('pointer-table lookups examined', n, 3)
 
 
 def parser_rules(f, rep):
